@@ -392,7 +392,17 @@ def min_rules(rep, cfg):
             binner = None
             for u in inner:
                 it2, j, a2, i2, n2 = u.args
-                if it2.op == "range_incl" and it2.args[0] is lit(1) and it2.args[1] is Tm.intop("isub", i, lit(2)) and len(a2) == 1 and i2[0] is b_ \
+                # number of iterations of the inner loop, whichever way the range is spelled (1..=n or 0..n)
+                cnt = None
+                if it2.op == "range_incl" and it2.args[0] is lit(1):
+                    cnt = it2.args[1]
+                elif it2.op == "struct" and it2.args[0] == "core::ops::Range":
+                    rg = dict(zip(it2.args[1], it2.args[2:]))
+                    if rg.get("start") is lit(0):
+                        cnt = rg.get("end")
+                    elif rg.get("start") is lit(1) and rg.get("end") is Tm.intop("isub", i, lit(1)):
+                        cnt = Tm.intop("isub", i, lit(2))
+                if cnt is Tm.intop("isub", i, lit(2)) and len(a2) == 1 and i2[0] is b_ \
                         and pk(n2[0]) == pk(mk("mul", a2[0], a2[0])):
                     binner = mk("proj", u, 0)
             if binner is None:
@@ -425,17 +435,18 @@ def min_rules(rep, cfg):
 
 
 def is_ne_one(flag, b):
-    """flag is `b != 1` expressed through subtle: !b.ct_eq(&ONE)"""
+    """flag is `b != 1` expressed through subtle (!b.ct_eq(&ONE)), with the negation at any level"""
     x = flag
-    if x.op == "choice_true":
-        x = x.args[0]
     neg = False
-    if x.op == "choice_not":
-        neg, x = True, x.args[0]
-    if x.op == "not":
-        neg, x = not neg, x.args[0]
-    if x.op == "ne":
-        neg, x = not neg, mk("eq", *x.args)
+    while True:
+        if x.op == "choice_true":
+            x = x.args[0]
+        elif x.op in ("choice_not", "not"):
+            neg, x = not neg, x.args[0]
+        elif x.op == "ne":
+            neg, x = not neg, mk("eq", *x.args)
+        else:
+            break
     if x.op == "eq" and neg:
         return (x.args[0] is b and x.args[1] is felem("fq", 1)) or (x.args[1] is b and x.args[0] is felem("fq", 1))
     return False
